@@ -3,6 +3,7 @@ package rules
 import (
 	"fmt"
 	"go/token"
+	"os"
 	"sort"
 	"strings"
 
@@ -234,41 +235,118 @@ func checkRunEnvChain(c *an.Ctx, rule, key string, at ssa.Instruction, chains []
 
 // mergeDirection: in Variables.Merge the argument's keys are copied after the receiver's.
 func mergeDirection(c *an.Ctx, rule string) {
-	fn := c.P.Func("pkg/variables", "Variables", "Merge")
-	if fn == nil {
+	p := c.P
+	fn := p.Func("pkg/variables", "Variables", "Merge")
+	if fn == nil || len(fn.Params) < 2 {
 		c.Und(rule, "variables.(*Variables).Merge", token.NoPos, "Merge not found")
 		return
 	}
-	var recvLoop, argLoop *an.Loop
-	for _, l := range an.Loops(fn) {
-		for _, src := range an.Sources(l.RangeOperand()) {
-			call, ok := src.(*ssa.Call)
-			if !ok {
-				continue
-			}
-			var recv ssa.Value
-			if call.Call.IsInvoke() {
-				recv = call.Call.Value
-			} else if len(call.Call.Args) > 0 {
-				recv = call.Call.Args[0]
-			}
-			if recv == nil {
-				continue
-			}
-			if an.SameValue(recv, fn.Params[0]) {
-				recvLoop = l
-			}
-			if len(fn.Params) > 1 && an.SameValue(recv, fn.Params[1]) {
-				argLoop = l
+	recvP, argP := fn.Params[0], fn.Params[1]
+	// writes into the container Merge builds, along every path, labelled by whose data they carry
+	label := func(vals ...ssa.Value) string {
+		fromRecv, fromArg := false, false
+		for _, v := range vals {
+			d := an.ParamDeps(v)
+			fromRecv = fromRecv || d[recvP]
+			fromArg = fromArg || d[argP]
+		}
+		switch {
+		case fromArg:
+			return "write(arg)"
+		case fromRecv:
+			return "write(recv)"
+		}
+		return ""
+	}
+	isFreshStorage := func(v ssa.Value) bool {
+		if fresh, _ := an.FreshBase(v); fresh {
+			return true
+		}
+		for _, s := range an.Sources(v) {
+			switch x := s.(type) {
+			case *ssa.UnOp:
+				if fa, ok := x.X.(*ssa.FieldAddr); ok {
+					if fresh, _ := an.FreshBase(fa.X); fresh {
+						return true
+					}
+				}
+			case *ssa.FieldAddr:
+				if fresh, _ := an.FreshBase(x.X); fresh {
+					return true
+				}
 			}
 		}
+		return false
 	}
-	if recvLoop == nil || argLoop == nil {
-		c.Und(rule, an.Short(fn)+":loops", fn.Pos(), "Merge does not copy its receiver and its argument in two loops")
+	ex := &an.Explorer{P: p, NoReturn: noReturn, MaxVisits: 2}
+	ex.Effect = func(in ssa.Instruction, st *an.State) string {
+		switch x := in.(type) {
+		case *ssa.Call:
+			if _, isBuiltin := x.Call.Value.(*ssa.Builtin); isBuiltin {
+				return ""
+			}
+			var recv ssa.Value
+			args := x.Call.Args
+			if x.Call.IsInvoke() {
+				recv = x.Call.Value
+			} else if len(args) > 0 {
+				recv, args = args[0], args[1:]
+			}
+			if recv == nil || len(args) == 0 || !isFreshStorage(recv) {
+				return ""
+			}
+			return label(args...)
+		case *ssa.Store:
+			switch a := x.Addr.(type) {
+			case *ssa.FieldAddr:
+				if fresh, _ := an.FreshBase(a.X); fresh {
+					return label(x.Val)
+				}
+			case *ssa.IndexAddr:
+				if isFreshStorage(a.X) {
+					return label(x.Val)
+				}
+			}
+		case *ssa.MapUpdate:
+			if isFreshStorage(x.Map) {
+				return label(x.Key, x.Value)
+			}
+		}
+		return ""
+	}
+	outs := ex.Run(fn, fn.Blocks[0], nil, nil)
+	if os.Getenv("TV_DEBUG") != "" {
+		for _, o := range outs {
+			fmt.Fprintln(os.Stderr, "mergeDirection:", o.End, o.Effects, o.Unknown)
+		}
+	}
+	bad := ""
+	sawBoth := false
+	for _, o := range outs {
+		if o.End != "return" {
+			continue
+		}
+		seenArg, seenRecv := false, false
+		for _, e := range o.Effects {
+			switch e {
+			case "write(arg)":
+				seenArg = true
+			case "write(recv)":
+				seenRecv = true
+				if seenArg {
+					bad = "Merge writes its receiver's values after its argument's: the receiver would win"
+				}
+			}
+		}
+		if seenArg && seenRecv {
+			sawBoth = true
+		}
+	}
+	if bad == "" && !sawBoth {
+		c.Und(rule, an.Short(fn)+":direction", fn.Pos(), "no path of Merge writes both its receiver's and its argument's values into the container it builds (%d paths)", len(outs))
 		return
 	}
-	ordered := !recvLoop.Blocks[argLoop.Header] && !argLoop.Blocks[recvLoop.Header] && reachesWithoutReturning(recvLoop.Header, argLoop.Header) && !an.CanReach(argLoop.NormalExit(), recvLoop.Header)
-	c.Check(ordered, rule, an.Short(fn)+":direction", fn.Pos(), "the argument's keys are written after the receiver's (argument wins)", "Merge copies its argument before its receiver: the receiver would win")
+	c.Check(bad == "", rule, an.Short(fn)+":direction", fn.Pos(), "on every path the argument's values are written after the receiver's (argument wins)", bad)
 }
 
 func reachesWithoutReturning(a, b *ssa.BasicBlock) bool { return an.CanReach(a, b) }
@@ -453,7 +531,9 @@ func dirTables(c *an.Ctx, r *runnerRoles, cc *ssa.Function, rule string) {
 	}{{"dir set", true, true, "dir"}, {"dir set, no context dir", true, false, "dir"}, {"dir empty, context dir set", false, true, "ctx"}, {"both empty", false, false, ""}} {
 		row := row
 		ex := &an.Explorer{P: p, NoReturn: noReturn, MaxDepth: 2,
-			Inline: func(g *ssa.Function) bool { return an.Outer(g).Pkg == cc.Pkg && g != cc && an.Short(g) != "pkg/utils.RenderString" }}
+			Inline: func(g *ssa.Function) bool {
+				return an.Outer(g).Pkg == cc.Pkg && g != cc && an.Short(g) != "pkg/utils.RenderString"
+			}}
 		var curSt *an.State
 		rootIs := func(of func(ssa.Value) bool) func(ssa.Value) bool {
 			return func(v ssa.Value) bool {
